@@ -133,6 +133,7 @@ type c20run struct {
 	samples []gsample
 	res     DriveRes
 	shotsBy map[int][]string
+	defs    []string
 }
 
 const defaultGRPCTimeout = 15 * time.Second
@@ -197,7 +198,30 @@ func (r *c20run) scenario(x *vs.X) func(end, msg string) error {
 	ctx, cancel := context.WithCancel(context.Background())
 	x.OnAbort(cancel)
 	x.Deadline = time.Now().Add(time.Hour)
-	vs.Go("driver", func() { DriveGuns(ctx, cancel, h.Ammo, guns, &r.res, nil) })
+	var onShot func(inst int, a core.Ammo)
+	r.defs = nil
+	if c.Mode == "scenario" {
+		// the shared scenario definition (calls, payload templates, metadata templates) as every instance sees it
+		onShot = func(inst int, a core.Ammo) {
+			if sc, ok := a.(*grpcscenario.Scenario); ok {
+				var sb strings.Builder
+				for _, cl := range sc.Calls {
+					ks := make([]string, 0, len(cl.Metadata))
+					for k := range cl.Metadata {
+						ks = append(ks, k)
+					}
+					sort.Strings(ks)
+					fmt.Fprintf(&sb, "%s %s %s payload=%s", cl.Name, cl.Tag, cl.Call, cl.Payload)
+					for _, k := range ks {
+						fmt.Fprintf(&sb, " %s=%q", k, cl.Metadata[k])
+					}
+					sb.WriteString(";")
+				}
+				r.defs = append(r.defs, sb.String())
+			}
+		}
+	}
+	vs.Go("driver", func() { DriveGuns(ctx, cancel, h.Ammo, guns, &r.res, onShot) })
 	return func(end, msg string) error {
 		defer cancel()
 		if len(r.res.Panics) > 0 {
@@ -349,6 +373,11 @@ scenarios:
 
 func (r *c20run) checkScenario() error {
 	c := r.cell
+	for i, d := range r.defs {
+		if d != r.defs[0] {
+			return fmt.Errorf("ISOLATION: the scenario definition handed to shot %d differs from the one handed to the first shot: an instance altered the shared definition\n first: %s\n now:   %s", i+1, r.defs[0], d)
+		}
+	}
 	if len(r.calls) != 2*c.Shots {
 		return fmt.Errorf("CALLS: %d calls for %d shots of a two-call scenario", len(r.calls), c.Shots)
 	}
